@@ -185,6 +185,23 @@ func main() {
 				}
 			}()
 		}
+	case "required":
+		// govc required : regenerate required_obligations.json from the current tree
+		e, err := NewEngine(repo, verif)
+		if err != nil {
+			fmt.Println("load error:", err)
+			os.Exit(2)
+		}
+		req := map[string][]string{}
+		for i := 1; i <= 20; i++ {
+			p := fmt.Sprintf("C%02d", i)
+			req[p] = listObligations(e, p)
+		}
+		data, _ := json.MarshalIndent(req, "", " ")
+		os.WriteFile(filepath.Join(verif, "required_obligations.json"), data, 0o644)
+		for _, p := range sortedKeys(req) {
+			fmt.Println(p, len(req[p]))
+		}
 	case "callees":
 		e, err := NewEngine(repo, verif)
 		if err != nil {
@@ -527,4 +544,23 @@ func listCallees(e *Engine) {
 	for _, k := range sortedKeys(seen) {
 		fmt.Printf("%4d %s\n", seen[k], k)
 	}
+}
+
+// listObligations prints the names of the contract-level obligations (ensures, traces, invariants,
+// lock and channel invariants, structural rules) of a property on the current tree.
+func listObligations(e *Engine, prop string) []string {
+	seen := map[string]bool{}
+	for _, fc := range e.functionsForProperty(prop) {
+		r := e.verifyFunction(fc)
+		for _, o := range r.Obls {
+			if !hasProp(o.Props, prop) {
+				continue
+			}
+			switch o.Kind {
+			case "ensures", "trace", "lockinv", "invariant", "chaninv", "atomic", "explored", "structure":
+				seen[o.Name] = true
+			}
+		}
+	}
+	return sortedBools(seen)
 }
